@@ -1,8 +1,11 @@
 (* Proofs/ContJpegProofs.v — the JPEG instance of the generic container theory.  The recogniser of
    C2PA segments (get_cai_segments) is stateful: a segment is a continuation when its box instance
    number equals the one of the last C2PA box start.  The obligations are proved for media segments
-   satisfying [jseg_ok]: an APP11 segment longer than 16 bytes has at least 28 bytes and does not use
-   the box instance number 0x0211 that write_cai assigns (outside: F-JPEG-EN, and write_cai fails). *)
+   and carries the next packet sequence number (fix d67d17dcd).  The obligations are proved for media
+   segments satisfying [jseg_ok]: an APP11 segment longer than 16 bytes has at least 28 bytes (otherwise
+   write_cai fails) and, if it uses the box instance number 0x0211 that write_cai assigns, its packet
+   sequence number is at most 1 (a one-segment foreign box; a later packet of a foreign multi-segment
+   box with that instance number can still be taken for a continuation). *)
 From Coq Require Import List NArith Bool Lia Arith.
 From C2PA Require Import Base.Bytes Model.Container Model.ContPng Model.ContJpeg
      Proofs.BytesProofs Proofs.ContainerProofs Proofs.ContPngProofs.
@@ -14,16 +17,17 @@ Definition jlong (s : jseg) : bool := is_app11_long s.
 Definition jen (s : jseg) : bytes := slice (jc s) 2 2.
 Definition jstart (s : jseg) : bool := beq (slice (jc s) 24 4) C2PA_MARKER.
 Definition jshort (s : jseg) : bool := (len (jc s) <? 28)%N.
+Definition jz (s : jseg) : N := de (slice (jc s) 4 4).
 
 (* media segments the theorems are about *)
-Definition jseg_ok (s : jseg) : Prop := jlong s = true -> jshort s = false /\ jen s <> JP_EN.
+Definition jseg_ok (s : jseg) : Prop := jlong s = true -> jshort s = false /\ (jen s = JP_EN -> (jz s <= 1)%N).
 (* not a C2PA box start *)
 Definition jplain (s : jseg) : Prop := jlong s = true -> jshort s = false /\ jstart s = false.
 
 Lemma jcai_cons s t en cnt :
   jcai (s :: t) en cnt =
   if jlong s then
-    if (0 <? cnt)%N && beq en (jen s) then rbind (jcai t en (cnt + 1)%N) (fun m => ROk (true :: m))
+    if (0 <? cnt)%N && (beq en (jen s) && (jz s =? cnt + 1)%N) then rbind (jcai t en (cnt + 1)%N) (fun m => ROk (true :: m))
     else if jshort s then RErr EInvalidAsset
     else if jstart s then rbind (jcai t (jen s) 1%N) (fun m => ROk (true :: m))
     else rbind (jcai t en cnt) (fun m => ROk (false :: m))
@@ -54,15 +58,24 @@ Proof.
   - rewrite IH. reflexivity.
 Qed.
 
+(* an admissible segment is never a continuation of the manifest (identifier 0x0211, counter > 0) *)
+Lemma jseg_ok_not_cont s cnt : jseg_ok s -> jlong s = true -> (0 < cnt)%N ->
+  (beq JP_EN (jen s) && (jz s =? cnt + 1)%N) = false.
+Proof.
+  intros Hs El Hc. destruct (Hs El) as [_ H2].
+  destruct (beq JP_EN (jen s)) eqn:E; [|reflexivity]. apply beq_eq in E. symmetry in E. specialize (H2 E).
+  cbn [andb]. apply N.eqb_neq. lia.
+Qed.
+
 (* after the manifest (identifier 0x0211, counter > 0) admissible plain segments are not recognised *)
-Lemma jcai_after l : Forall jseg_ok l -> Forall jplain l -> forall cnt,
+Lemma jcai_after l : Forall jseg_ok l -> Forall jplain l -> forall cnt, (0 < cnt)%N ->
   jcai l JP_EN cnt = ROk (repeat false (length l)).
 Proof.
-  intros Hok Hpl. induction l as [|s t IH]; intro cnt; [reflexivity|].
+  intros Hok Hpl. induction l as [|s t IH]; intros cnt Hc; [reflexivity|].
   inversion Hok as [|? ? Hs Hok']; subst. inversion Hpl as [|? ? Hp Hpl']; subst.
   rewrite jcai_cons. destruct (jlong s) eqn:El.
-  - destruct (Hs El) as [H1 H2]. destruct (Hp El) as [_ H3].
-    apply not_eq_sym in H2. apply beq_neq in H2. rewrite H2, andb_false_r, H1, H3, IH by assumption. reflexivity.
+  - destruct (Hs El) as [H1 _]. destruct (Hp El) as [_ H3].
+    rewrite (jseg_ok_not_cont s cnt Hs El Hc), andb_false_r, H1, H3, IH by assumption. reflexivity.
   - rewrite IH by assumption. reflexivity.
 Qed.
 
@@ -88,7 +101,7 @@ Proof.
   - cbn in H. injection H as <-. constructor.
   - rewrite jcai_cons in H.
     destruct (jlong s) eqn:El.
-    + destruct ((0 <? cnt)%N && beq en (jen s)).
+    + destruct ((0 <? cnt)%N && (beq en (jen s) && (jz s =? cnt + 1)%N)).
       * destruct (jcai t en (cnt + 1)%N) as [m'|] eqn:E; cbn in H; [|discriminate]. injection H as <-.
         cbn. eapply IH; exact E.
       * destruct (jshort s) eqn:Esh; [discriminate|]. destruct (jstart s) eqn:Est.
@@ -127,7 +140,7 @@ Proof.
   rewrite jcai_cons.
   destruct (jlong x) eqn:El.
   - destruct (Hx El) as [H1 _]. rewrite H1.
-    destruct ((0 <? cnt)%N && beq en (jen x)).
+    destruct ((0 <? cnt)%N && (beq en (jen x) && (jz x =? cnt + 1)%N)).
     + destruct (IH en (cnt + 1)%N) as [m ->]. eexists; reflexivity.
     + destruct (jstart x).
       * destruct (IH (jen x) 1%N) as [m ->]. eexists; reflexivity.
@@ -179,17 +192,35 @@ Proof.
   destruct ch; [contradiction|]. cbn [length]. lia.
 Qed.
 
-Lemma jcai_cont b cl : 8 <= length b -> Forall (fun ch => ch <> []) cl ->
-  forall k cnt rest m', (0 < cnt)%N ->
-  jcai rest JP_EN (cnt + N.of_nat (length cl))%N = ROk m' ->
-  jcai (mapi_from (S k) (jf b) cl ++ rest) JP_EN cnt = ROk (repeat true (length cl) ++ m').
+Lemma jf_cont_read b k ch : 8 <= length b -> (N.of_nat (S (S k)) < 4294967296)%N ->
+  de (slice (jc (jf b (S k) ch)) 4 4) = N.of_nat (S (S k)) /\ skipn 16 (jc (jf b (S k) ch)) = ch.
 Proof.
-  intros Hb Hcl. induction Hcl as [|ch t Hch Ht IH]; intros k cnt rest m' Hc Hr.
-  - cbn. rewrite N.add_0_r in Hr. exact Hr.
+  intros Hb Hk. unfold jf. cbn [jc Nat.eqb]. split.
+  - change (slice (JP_CI ++ JP_EN ++ be 4 (N.of_nat (S (S k))) ++ firstn 8 b ++ ch) 4 4)
+      with (firstn 4 (be 4 (N.of_nat (S (S k))) ++ firstn 8 b ++ ch)).
+    rewrite (firstn_len_app 4) by apply be_length. apply de_be4. exact Hk.
+  - change (skipn 16 (JP_CI ++ JP_EN ++ be 4 (N.of_nat (S (S k))) ++ firstn 8 b ++ ch))
+      with (skipn 12 (be 4 (N.of_nat (S (S k))) ++ firstn 8 b ++ ch)).
+    rewrite app_assoc. apply skipn_len_app. rewrite app_length, be_length, firstn_length. lia.
+Qed.
+
+Lemma jcai_cont b cl : 8 <= length b -> Forall (fun ch => ch <> []) cl ->
+  forall k rest m', (N.of_nat (S k + length cl) < 4294967296)%N ->
+  jcai rest JP_EN (N.of_nat (S k + length cl)) = ROk m' ->
+  jcai (mapi_from (S k) (jf b) cl ++ rest) JP_EN (N.of_nat (S k)) = ROk (repeat true (length cl) ++ m').
+Proof.
+  intros Hb Hcl. induction Hcl as [|ch t Hch Ht IH]; intros k rest m' Hk Hr.
+  - cbn. rewrite Nat.add_0_r in Hr. exact Hr.
   - cbn [mapi_from app]. rewrite jcai_cons, (jf_cont_long b k ch Hb Hch), jf_en, beq_refl.
-    replace (0 <? cnt)%N with true by (symmetry; apply N.ltb_lt; exact Hc). cbn [andb].
-    rewrite (IH (S k) (cnt + 1)%N rest m'); [reflexivity| lia|].
-    rewrite <- Hr. f_equal. cbn [length]. lia.
+    cbn [length] in Hk, Hr.
+    destruct (jf_cont_read b k ch Hb) as [Hz _]; [lia|]. unfold jz. rewrite Hz.
+    replace (0 <? N.of_nat (S k))%N with true by (symmetry; apply N.ltb_lt; lia).
+    replace (N.of_nat (S (S k)) =? N.of_nat (S k) + 1)%N with true by (symmetry; apply N.eqb_eq; lia).
+    cbn [andb].
+    replace (N.of_nat (S k) + 1)%N with (N.of_nat (S (S k))) by lia.
+    rewrite (IH (S k) rest m'); [reflexivity| |].
+    + replace (S (S k) + length t) with (S k + S (length t)) by lia. exact Hk.
+    + replace (S (S k) + length t) with (S k + S (length t)) by lia. exact Hr.
 Qed.
 
 (* the first segment is a C2PA start *)
@@ -269,14 +300,17 @@ Theorem jcai_inserted s i b en :
 Proof.
   intros Hp Hok Ha Hi. unfold insert_at.
   rewrite jcai_plain_app by (apply forall_firstn; exact Hp).
-  destruct (jmk_shape b Ha) as (cl & Hmk & Hcl & _ & _).
+  destruct (jmk_shape b Ha) as (cl & Hmk & Hcl & _ & Hn).
   destruct (jf_first b Ha) as (F1 & F2 & F3 & _).
   assert (Hb8 : 8 <= length b) by (destruct Ha; lia).
   rewrite Hmk. cbn [app]. rewrite jcai_cons, F1. change (0 <? 0)%N with false. cbn [andb]. rewrite F2, F3, jf_en.
-  rewrite (jcai_cont b cl Hb8 Hcl 0 1%N (skipn i s) (repeat false (length (skipn i s)))); [|lia|].
+  change 1%N with (N.of_nat 1).
+  assert (Hbound : (N.of_nat (1 + length cl) < 4294967296)%N).
+  { destruct Ha as (_ & _ & H32). unfold len in H32. unfold bytes in *. lia. }
+  rewrite (jcai_cont b cl Hb8 Hcl 0 (skipn i s) (repeat false (length (skipn i s))) Hbound).
   - cbn [rbind]. rewrite firstn_length, skipn_length. cbn [length]. rewrite mapi_from_length.
     replace (Nat.min i (length s)) with i by lia. reflexivity.
-  - apply jcai_after; [apply forall_skipn; exact Hok| apply forall_skipn; exact Hp].
+  - apply jcai_after; [apply forall_skipn; exact Hok| apply forall_skipn; exact Hp| lia].
 Qed.
 
 (* ------------------------------------------------------------------ the reader *)
@@ -305,27 +339,31 @@ Proof.
   destruct (28 <? len (jc s))%N; exact IH.
 Qed.
 
-Lemma jread_after l : Forall jseg_ok l -> Forall jplain l -> forall buf cnt st,
-  jread_loop l buf JP_EN cnt st = ROk buf.
+Lemma jen_not_nil s : jlong s = true -> beq [] (jen s) = false.
 Proof.
-  intros Hok Hpl. induction l as [|s t IH]; intros buf cnt st; [reflexivity|].
+  intro El. unfold jlong, is_app11_long in El. apply andb_prop in El. destruct El as [_ E2]. apply N.ltb_lt in E2.
+  apply beq_neq. intro H. assert (Hl : length (jen s) = 2).
+  { unfold jen. apply slice_length. unfold len in E2. lia. }
+  rewrite <- H in Hl. discriminate.
+Qed.
+
+(* after the manifest the reader's identifier is 0x0211 or has been reset to empty; admissible plain
+   segments add nothing *)
+Lemma jread_after l : Forall jseg_ok l -> Forall jplain l -> forall buf en cnt st,
+  en = JP_EN \/ en = [] -> (0 < cnt)%N -> jread_loop l buf en cnt st = ROk buf.
+Proof.
+  intros Hok Hpl. induction l as [|s t IH]; intros buf en cnt st Hen Hc; [reflexivity|].
   inversion Hok as [|? ? Hs Hok']; subst. inversion Hpl as [|? ? Hp Hpl']; subst.
   rewrite jread_cons. destruct (jlong s) eqn:El; [|apply IH; assumption].
   destruct (Hs El) as [_ H2]. destruct (Hp El) as [_ H3].
-  apply not_eq_sym in H2. apply beq_neq in H2. rewrite H2, andb_false_r, H3.
-  destruct (28 <? len (jc s))%N; apply IH; assumption.
-Qed.
-
-Lemma jf_cont_read b k ch : 8 <= length b -> (N.of_nat (S (S k)) < 4294967296)%N ->
-  de (slice (jc (jf b (S k) ch)) 4 4) = N.of_nat (S (S k)) /\ skipn 16 (jc (jf b (S k) ch)) = ch.
-Proof.
-  intros Hb Hk. unfold jf. cbn [jc Nat.eqb]. split.
-  - change (slice (JP_CI ++ JP_EN ++ be 4 (N.of_nat (S (S k))) ++ firstn 8 b ++ ch) 4 4)
-      with (firstn 4 (be 4 (N.of_nat (S (S k))) ++ firstn 8 b ++ ch)).
-    rewrite (firstn_len_app 4) by apply be_length. apply de_be4. exact Hk.
-  - change (skipn 16 (JP_CI ++ JP_EN ++ be 4 (N.of_nat (S (S k))) ++ firstn 8 b ++ ch))
-      with (skipn 12 (be 4 (N.of_nat (S (S k))) ++ firstn 8 b ++ ch)).
-    rewrite app_assoc. apply skipn_len_app. rewrite app_length, be_length, firstn_length. lia.
+  replace (0 <? cnt)%N with true by (symmetry; apply N.ltb_lt; exact Hc). cbn [andb].
+  destruct (beq en (jen s)) eqn:Ec.
+  - (* same identifier: only possible for en = JP_EN, and then the packet number is stale *)
+    destruct Hen as [-> | ->]; [|rewrite (jen_not_nil s El) in Ec; discriminate].
+    apply beq_eq in Ec. symmetry in Ec. specialize (H2 Ec). fold (jz s).
+    replace (jz s <=? cnt)%N with true by (symmetry; apply N.leb_le; lia).
+    apply IH; auto.
+  - rewrite H3. destruct (28 <? len (jc s))%N; apply IH; assumption.
 Qed.
 
 Lemma jread_cont b cl : 8 <= length b -> Forall (fun ch => ch <> []) cl ->
@@ -359,7 +397,7 @@ Proof.
   rewrite F4, F3, F5, jf_en. change (0 =? 1)%N with false. cbn iota.
   change 1%N with (N.of_nat 1) at 1.
   rewrite (jread_cont b cl Hb8 Hcl 0) by (unfold bytes in *; lia).
-  rewrite jread_after by (apply forall_skipn; assumption).
+  rewrite jread_after; [|apply forall_skipn; assumption|apply forall_skipn; assumption|left; reflexivity|lia].
   cbn [app]. rewrite Hcat. destruct b; [destruct Ha; cbn in *; lia| reflexivity].
 Qed.
 
@@ -546,10 +584,22 @@ Proof. intro E. unfold gremove. rewrite (jstrip_eq l m E). reflexivity. Qed.
 
 (* ------------------------------------------------------------------ object locations of a written JPEG *)
 
-Fixpoint jsum (l : list jseg) : N := match l with [] => 0%N | s :: t => (jlen_e s + jsum t)%N end.
+(* offsets advance by [jstep] (4 for a parameterless marker segment, the encoded length otherwise) *)
+Fixpoint jsum (l : list jseg) : N := match l with [] => 0%N | s :: t => (jstep s + jsum t)%N end.
 
 Lemma jsum_app l1 l2 : jsum (l1 ++ l2) = (jsum l1 + jsum l2)%N.
 Proof. induction l1 as [|s t IH]; cbn [app jsum]; [reflexivity|]. rewrite IH. lia. Qed.
+
+(* a segment as the parser produces it: a length field, or a bare marker *)
+Definition jseg_len_ok (s : jseg) : Prop := has_length (jm s) = true \/ (jc s = [] /\ je s = []).
+
+Lemma jstep_enc s : jseg_len_ok s -> jstep s = N.of_nat (length (enc_jseg s)) /\ (jlen_e s <= jstep s)%N.
+Proof.
+  intro H. unfold jstep, jlen_e, jlen. rewrite enc_jseg_length. unfold len.
+  destruct H as [H|[H1 H2]].
+  - rewrite H. replace (4 + N.of_nat (length (jc s)) =? 2)%N with false by (symmetry; apply N.eqb_neq; lia). lia.
+  - rewrite H1, H2. cbn [length]. destruct (has_length (jm s)); cbn; lia.
+Qed.
 
 (* the regions pushed for unrecognised segments *)
 Fixpoint jregs (l : list jseg) (curr : N) : list (N * N * kind) :=
@@ -558,12 +608,14 @@ Fixpoint jregs (l : list jseg) (curr : N) : list (N * N * kind) :=
   | s :: t =>
     (if (jm s =? M_APP11)%N then (if (16 <? len (jc s))%N then [(curr, jlen_e s, KOther)] else [])
      else if (jm s =? M_APP1)%N then [(curr, jlen_e s, KXmp)] else [(curr, jlen_e s, KOther)])
-    ++ jregs t (curr + jlen_e s)%N
+    ++ jregs t (curr + jstep s)%N
   end.
 
-Lemma jregs_within l : forall c, Forall (fun r => (c <= fst (fst r) /\ fst (fst r) + snd (fst r) <= c + jsum l)%N) (jregs l c).
+Lemma jregs_within l : Forall jseg_len_ok l ->
+  forall c, Forall (fun r => (c <= fst (fst r) /\ fst (fst r) + snd (fst r) <= c + jsum l)%N) (jregs l c).
 Proof.
-  induction l as [|s t IH]; intro c; cbn [jregs jsum]; [constructor|].
+  induction 1 as [|s t Hs Ht IH]; intro c; cbn [jregs jsum]; [constructor|].
+  destruct (jstep_enc s Hs) as [_ Hle].
   apply Forall_app. split.
   - destruct (jm s =? M_APP11)%N; [destruct (16 <? len (jc s))%N|destruct (jm s =? M_APP1)%N];
       repeat constructor; cbn [fst snd]; lia.
@@ -587,37 +639,48 @@ Proof.
     + destruct (jm s =? M_APP1)%N; rewrite IH, <- app_assoc, N.add_assoc; reflexivity.
 Qed.
 
-Lemma jloc_after l : Forall jseg_ok l -> Forall jplain l -> forall idx cnt curr cai acc,
+Lemma jloc_after l : Forall jseg_ok l -> Forall jplain l -> forall idx cnt curr cai acc, (0 < cnt)%N ->
   jloc_loop l idx None JP_EN cnt curr cai acc = ROk ((curr + jsum l)%N, cai, acc ++ jregs l curr).
 Proof.
-  intros Hok Hpl. induction l as [|s t IH]; intros idx cnt curr cai acc.
+  intros Hok Hpl. induction l as [|s t IH]; intros idx cnt curr cai acc Hc.
   - cbn. rewrite N.add_0_r, app_nil_r. reflexivity.
   - inversion Hok as [|? ? Hs Hok']; subst. inversion Hpl as [|? ? Hp Hpl']; subst.
     cbn [jloc_loop jregs jsum].
     destruct (jm s =? M_APP11)%N eqn:Em.
     + destruct (16 <? len (jc s))%N eqn:E16.
       * assert (El : jlong s = true) by (unfold jlong, is_app11_long; rewrite Em, E16; reflexivity).
-        destruct (Hs El) as [H1 H2]. destruct (Hp El) as [_ H3]. unfold jshort in H1. unfold jstart in H3. unfold jen in H2.
-        apply not_eq_sym in H2. apply beq_neq in H2. rewrite H2, andb_false_r, H1, H3, IH by assumption.
+        destruct (Hs El) as [H1 _]. destruct (Hp El) as [_ H3]. unfold jshort in H1. unfold jstart in H3.
+        pose proof (jseg_ok_not_cont s cnt Hs El Hc) as Hn. unfold jen, jz in Hn.
+        rewrite Hn, andb_false_r, H1, H3, IH by assumption.
         rewrite <- app_assoc, N.add_assoc. reflexivity.
       * rewrite IH by assumption. cbn [app]. rewrite N.add_assoc. reflexivity.
     + destruct (jm s =? M_APP1)%N; rewrite IH by assumption; rewrite <- app_assoc, N.add_assoc; reflexivity.
 Qed.
 
+Lemma jf_step b k ch : jstep (jf b k ch) = jlen_e (jf b k ch).
+Proof.
+  unfold jstep, jlen. cbn [jm jf]. change (has_length M_APP11) with true. cbn iota.
+  replace (4 + len (jc (jf b k ch)) =? 2)%N with false by (symmetry; apply N.eqb_neq; lia). reflexivity.
+Qed.
+
 Lemma jloc_cont b cl : 8 <= length b -> Forall (fun ch => ch <> []) cl ->
-  forall k idx cnt curr cai acc rest, (0 < cnt)%N ->
-  jloc_loop (mapi_from (S k) (jf b) cl ++ rest) idx None JP_EN cnt curr cai acc
-  = jloc_loop rest (idx + length cl) None JP_EN (cnt + N.of_nat (length cl))%N
+  forall k idx curr cai acc rest, (N.of_nat (S k + length cl) < 4294967296)%N ->
+  jloc_loop (mapi_from (S k) (jf b) cl ++ rest) idx None JP_EN (N.of_nat (S k)) curr cai acc
+  = jloc_loop rest (idx + length cl) None JP_EN (N.of_nat (S k + length cl))
               (curr + jsum (mapi_from (S k) (jf b) cl))%N
               (fst cai, (snd cai + jsum (mapi_from (S k) (jf b) cl))%N) acc.
 Proof.
-  intros Hb Hcl. induction Hcl as [|ch t Hch Ht IH]; intros k idx cnt curr cai acc rest Hc.
-  - cbn. rewrite Nat.add_0_r, !N.add_0_r. destruct cai; reflexivity.
-  - cbn [mapi_from app jloc_loop length jsum].
+  intros Hb Hcl. induction Hcl as [|ch t Hch Ht IH]; intros k idx curr cai acc rest Hk.
+  - cbn. rewrite !Nat.add_0_r, !N.add_0_r. destruct cai; reflexivity.
+  - cbn [mapi_from app jloc_loop length jsum]. cbn [length] in Hk.
     pose proof (jf_cont_long b k ch Hb Hch) as El. unfold jlong, is_app11_long in El.
     apply andb_prop in El. destruct El as [E1 E2]. rewrite E1, E2.
     change (slice (jc (jf b (S k) ch)) 2 2) with JP_EN. rewrite beq_refl.
-    replace (0 <? cnt)%N with true by (symmetry; apply N.ltb_lt; exact Hc). cbn [andb].
+    destruct (jf_cont_read b k ch Hb) as [Hz _]; [lia|]. rewrite Hz.
+    replace (0 <? N.of_nat (S k))%N with true by (symmetry; apply N.ltb_lt; lia).
+    replace (N.of_nat (S (S k)) =? N.of_nat (S k) + 1)%N with true by (symmetry; apply N.eqb_eq; lia).
+    cbn [andb]. rewrite jf_step.
+    replace (N.of_nat (S k) + 1)%N with (N.of_nat (S (S k))) by lia.
     rewrite IH by lia. cbn [fst snd]. f_equal; try lia. f_equal. lia.
 Qed.
 
@@ -632,24 +695,27 @@ Theorem jpeg_loc_inserted s i b :
   /\ (0 < ln)%N.
 Proof.
   intros Hp Hok Ha Hi. cbn zeta.
-  destruct (jmk_shape b Ha) as (cl & Hmk & Hcl & _ & _).
+  destruct (jmk_shape b Ha) as (cl & Hmk & Hcl & _ & Hn).
   destruct (jf_first b Ha) as (F1 & F2 & F3 & _).
   assert (Hb8 : 8 <= length b) by (destruct Ha; lia).
+  assert (Hbound : (N.of_nat (1 + length cl) < 4294967296)%N).
+  { destruct Ha as (_ & _ & H32). unfold len in H32. unfold bytes in *. lia. }
   assert (Hpos : (0 < jsum (jmk b))%N).
-  { rewrite Hmk. cbn [jsum]. unfold jlen_e, jlen. cbn [jm jf]. change (has_length M_APP11) with true. cbn iota. lia. }
+  { rewrite Hmk. cbn [jsum]. rewrite jf_step. unfold jlen_e, jlen. cbn [jm jf]. change (has_length M_APP11) with true. cbn iota. lia. }
   split; [|exact Hpos].
   unfold jpeg_loc_segs. rewrite (jcai_inserted s i b [] Hp Hok Ha Hi). cbn [rbind].
   assert (Hex : existsb (fun x : bool => x) (repeat false i ++ repeat true (length (jmk b)) ++ repeat false (length s - i)) = true).
-  { rewrite !existsb_app. pose proof (jmk_nonempty b Ha) as Hn. destruct (length (jmk b)); [lia|]. cbn. apply orb_true_r. }
+  { rewrite !existsb_app. pose proof (jmk_nonempty b Ha) as Hn'. destruct (length (jmk b)); [lia|]. cbn. apply orb_true_r. }
   rewrite Hex. unfold insert_at.
   rewrite jloc_plain_app by (apply forall_firstn; exact Hp).
   rewrite Hmk. cbn [app jloc_loop].
   unfold jlong, is_app11_long in F1. apply andb_prop in F1. destruct F1 as [E1 E2]. rewrite E1, E2.
   change (0 <? 0)%N with false. cbn [andb]. unfold jshort in F2. unfold jstart in F3. rewrite F2, F3.
   change (slice (jc (jf b 0 (firstn MAX_JPEG_MARKER_SIZE b))) 2 2) with JP_EN.
-  rewrite (jloc_cont b cl Hb8 Hcl 0) by lia.
-  rewrite jloc_after by (apply forall_skipn; assumption).
-  cbn [rbind fst snd jsum app].
+  change 1%N with (N.of_nat 1) at 1.
+  rewrite (jloc_cont b cl Hb8 Hcl 0) by exact Hbound.
+  rewrite jloc_after; [|apply forall_skipn; assumption|apply forall_skipn; assumption|lia].
+  cbn [rbind fst snd jsum app]. rewrite !jf_step.
   set (run := jsum (mapi_from 1 (jf b) cl)).
   set (first := jlen_e (jf b 0 (firstn MAX_JPEG_MARKER_SIZE b))).
   replace (0 <? 0 + first + run)%N with true.
@@ -658,28 +724,25 @@ Proof.
   replace (0 + first + run)%N with (first + run)%N by lia. reflexivity.
 Qed.
 
-(* segment lengths as computed by the handler (JpegSegment::len_with_entropy) equal the encoded
-   lengths exactly for segments whose marker has a length field; a parameterless marker is encoded
-   in 4 bytes but counted as 2 (F-JPEG-NOLEN) *)
-Lemma jsum_enc l : Forall (fun s => has_length (jm s) = true) l ->
-  jsum l = N.of_nat (length (encs jpeg_format l)).
+(* offsets computed by the handler are byte offsets in the written file *)
+Lemma jsum_enc l : Forall jseg_len_ok l -> jsum l = N.of_nat (length (encs jpeg_format l)).
 Proof.
   induction 1 as [|s t Hs Ht IH]; [reflexivity|].
-  cbn [jsum]. unfold encs in *. cbn [map concat enc jpeg_format] in *. rewrite app_length, enc_jseg_length, IH.
-  unfold jlen_e, jlen. rewrite Hs. unfold len. lia.
+  cbn [jsum]. unfold encs in *. cbn [map concat enc jpeg_format] in *. rewrite app_length, IH.
+  destruct (jstep_enc s Hs) as [-> _]. lia.
 Qed.
 
-Lemma jmk_has_length b : Forall (fun s => has_length (jm s) = true) (jmk b).
+Lemma jmk_len_ok b : Forall jseg_len_ok (jmk b).
 Proof.
   rewrite jmk_eq. generalize 0. induction (chunks (length b) MAX_JPEG_MARKER_SIZE b) as [|c t IH]; intro k; cbn [mapi_from]; constructor.
-  - reflexivity.
+  - left. reflexivity.
   - apply IH.
 Qed.
 
-(* the reported region of a written JPEG, in bytes of the written file *)
+(* the reported region of a written JPEG, in bytes of the written file; every other reported region lies
+   in front of or behind it *)
 Theorem jpeg_region_written l b :
-  Forall jseg_ok (strip jpeg_format l) -> jadm b ->
-  Forall (fun s => has_length (jm s) = true) (firstn (ins jpeg_format l) (strip jpeg_format l)) ->
+  Forall jseg_ok (strip jpeg_format l) -> jadm b -> Forall jseg_len_ok (strip jpeg_format l) ->
   exists acc,
     jpeg_loc_segs (gwrite jpeg_format l b)
     = ROk (acc ++ [(N.of_nat (2 + goff jpeg_format l), N.of_nat (glen jpeg_format b), KCai)])
@@ -692,26 +755,27 @@ Proof.
   destruct (jpeg_loc_inserted (strip jpeg_format l) (jins l) b Hp Hok Ha Hb) as [Hloc Hpos].
   cbn zeta in Hloc. unfold gwrite. change (ins jpeg_format l) with (jins l) in *. change (mk jpeg_format b) with (jmk b).
   change (seg jpeg_format) with jseg in *. rewrite Hloc.
+  pose proof (forall_firstn _ (jins l) _ Hlen) as HlenP. pose proof (forall_skipn _ (jins l) _ Hlen) as HlenS.
   assert (Eoff : N.of_nat (2 + goff jpeg_format l) = (2 + jsum (firstn (jins l) (strip jpeg_format l)))%N).
-  { unfold goff. change (ins jpeg_format l) with (jins l). change (seg jpeg_format) with jseg. rewrite (jsum_enc _ Hlen), Nat2N.inj_add. reflexivity. }
+  { unfold goff. change (ins jpeg_format l) with (jins l). change (seg jpeg_format) with jseg. rewrite (jsum_enc _ HlenP), Nat2N.inj_add. reflexivity. }
   assert (Elen : N.of_nat (glen jpeg_format b) = jsum (jmk b)).
-  { unfold glen. change (mk jpeg_format b) with (jmk b). change (seg jpeg_format) with jseg. rewrite (jsum_enc _ (jmk_has_length b)). reflexivity. }
+  { unfold glen. change (mk jpeg_format b) with (jmk b). change (seg jpeg_format) with jseg. rewrite (jsum_enc _ (jmk_len_ok b)). reflexivity. }
   eexists. split.
   - rewrite Eoff, Elen. reflexivity.
   - apply Forall_app. split.
-    + eapply Forall_impl; [|apply jregs_within]. cbn beta. intros r [_ H]. left. rewrite Eoff. change (seg jpeg_format) with jseg in *. lia.
-    + eapply Forall_impl; [|apply jregs_within]. cbn beta. intros r [H _]. right. rewrite Nat2N.inj_add, Elen. rewrite Nat2N.inj_add in Eoff. change (seg jpeg_format) with jseg in *. lia.
+    + eapply Forall_impl; [|apply (jregs_within _ HlenP)]. cbn beta. intros r [_ H]. left. rewrite Eoff. change (seg jpeg_format) with jseg in *. lia.
+    + eapply Forall_impl; [|apply (jregs_within _ HlenS)]. cbn beta. intros r [H _]. right. rewrite Nat2N.inj_add, Elen. rewrite Nat2N.inj_add in Eoff. change (seg jpeg_format) with jseg in *. lia.
 Qed.
 
-(* F-JPEG-NOLEN on the model: a TEM marker in front of the manifest; the handler reports offset 24
-   while the manifest starts at byte 26 of the written file *)
+(* the former F-JPEG-NOLEN witness (a TEM marker in front of the manifest): after fix d67d17dcd the
+   reported offset is the byte offset of the manifest in the written file *)
 Definition nolen_asset : list jseg :=
   [JSeg 1 [] []; JSeg M_APP0 [74; 70; 73; 70; 0]%N []; JSeg M_SOS [1; 2]%N [3; 4]%N].
 Definition nolen_store : bytes := [0;0;0;24;106;117;109;98;0;0;0;16;106;117;109;100;99;50;112;97;0;0;0;0]%N.
 
-Theorem jpeg_nolen_refuted :
+Theorem jpeg_nolen_fixed :
   let w := gwrite jpeg_format nolen_asset nolen_store in
   jpeg_write_segs nolen_asset nolen_store = ROk w
-  /\ (exists acc, jpeg_loc_segs w = ROk (acc ++ [(13%N, 36%N, KCai)]))
+  /\ (exists acc, jpeg_loc_segs w = ROk (acc ++ [(15%N, 36%N, KCai)]))
   /\ 2 + goff jpeg_format nolen_asset = 15.
 Proof. vm_compute. repeat split. eexists [_; _; _]. reflexivity. Qed.
